@@ -250,10 +250,22 @@ func requests(cfg mbrCfg, apiOnly bool) []mbrCase {
 	for k := 0; k < cfg.Removed; k++ {
 		srcs = append(srcs, srcRemoved+k)
 	}
-	// add, API path: every combination of attribute origins (fresh / member j / removed k)
+	// add, API path: every combination of attribute origins (fresh / member j / removed k).
+	// In a degraded cluster every add is refused for health anyway, so only single-origin requests are asked there.
 	for _, a := range srcs {
 		for _, b := range srcs {
 			for _, p := range srcs {
+				if !allHealthy(cfg.Health) {
+					d := map[int]bool{}
+					for _, s := range []int{a, b, p} {
+						if s != srcFresh {
+							d[s] = true
+						}
+					}
+					if len(d) > 1 {
+						continue
+					}
+				}
 				mk("api", mbrReq{Add: true, Name: a, Addr: b, Peer: p, ID: srcFresh})
 			}
 		}
